@@ -30,15 +30,22 @@ const (
 	obDoc    = "oracle: document invariants on the real response (no panic, media type, well-formed JSON, jsonapi.version, never data+errors, status-from-errors, resource identity, link form)"
 	obRef    = "oracle: real status = RefStatus (independent Go transcription of the documented rules)"
 	obSpec   = "cross-check: Lean Spec.refStatus = Go RefStatus on the abstracted request"
+	obState  = "oracle: state independence — a request served again later in the same process (after other requests, on other API values) gets its first-time answer"
 	keyF19a  = "F-19a-marshal-fallback-not-a-document"
 	keyF19b  = "F-19b-relationship-route-without-get-404"
-	ruleText = "cases = (generated resource schema, request); requests: method(10) × path depth 0..6 (known/unknown type, ids incl. empty/unicode/'relationships', relationship/attribute/unknown names) × 25 Accept variants × 61 query-key variants × 24 body families (matching/conflicting/undecodable) ; per schema a method×route grid and an Accept×query grid are enumerated, the rest is random. distinct = distinct (schema, abstract request); non-trivial = negotiation and the parameter check pass and the path's first component is a defined type at depth 1..4 (the request reaches the routing tree)"
+	ruleText = "cases = (generated resource schema, request); requests: method(10) × path depth 0..6 (known/unknown type, ids incl. empty/unicode/'relationships', relationship/attribute/unknown names) × 25 Accept variants × 61 query-key variants × 24 body families (matching/conflicting/undecodable) ; per schema a method×route grid and an Accept×query grid are enumerated, the rest is random; history dimension: per schema several confusable families (same Accept values split differently over header lines, same path with other method/Accept/query/body/spelling, same request on another schema) served in random order and again, plus a final re-serve pass over a sample of everything served (answers must equal the first-time answers). distinct = distinct (schema, abstract request); non-trivial = negotiation and the parameter check pass and the path's first component is a defined type at depth 1..4 (the request reaches the routing tree)"
 )
 
 type harness struct {
 	run      *hx.Run
 	model    *hx.Model
 	reported map[string]int // violations already shrunk and written, per signature and finding key
+
+	worlds     []worldEntry // every API value of this process (history.go)
+	sample     []remembered
+	sampleRand *hx.Rand
+	served     int
+	families   int
 }
 
 type verdict struct {
@@ -137,6 +144,15 @@ func (h *harness) evalOne(c *Case) (*verdict, error) {
 	if err != nil {
 		return nil, err
 	}
+	for i := range c.Before {
+		bs := schema
+		if c.Before[i].World != nil {
+			if bs, err = c.Before[i].World.build(); err != nil {
+				return nil, err
+			}
+		}
+		serve(bs, &c.Before[i].Req)
+	}
 	real := serve(schema, &c.Req)
 	reply := ""
 	if h.model != nil {
@@ -200,15 +216,35 @@ func (h *harness) report(c Case, v *verdict) {
 	} else {
 		h.reported[k]++
 	}
+	// Is the failure state-dependent? Serve the request alone in a fresh process.
+	eval := h.evalOne
+	stateNote := ""
+	alone := Case{World: c.World, Req: c.Req}
+	if va, err := h.evalFresh(&alone); err == nil && va.signature() != sig {
+		// alone it is answered differently: the history matters; all evaluations move to fresh processes
+		eval = h.evalFresh
+		if vh, err := h.evalFresh(&cur); err == nil && vh.signature() == sig {
+			curV = vh
+			stateNote = "[state-dependent: alone in a fresh process the request is answered " + va.realObs + "] "
+		} else {
+			stateNote = "[state-dependent: alone in a fresh process the request is answered " + va.realObs + "; the recorded history (earlier requests of its family) does not reproduce it in a fresh process, the cause lies further back in the run] "
+			eval = nil
+		}
+	} else {
+		cur.Before = nil
+	}
 	try := func(cand Case) bool {
-		v2, err := h.evalOne(&cand)
+		if eval == nil {
+			return false
+		}
+		v2, err := eval(&cand)
 		if err != nil || v2.signature() != sig {
 			return false
 		}
 		cur, curV = cand, v2
 		return true
 	}
-	for changed, rounds := true, 0; changed && rounds < 20; rounds++ {
+	for changed, rounds := true, 0; changed && rounds < 40; rounds++ {
 		changed = false
 		for _, cand := range shrinkCandidates(cur) {
 			if try(cand) {
@@ -226,7 +262,10 @@ func (h *harness) report(c Case, v *verdict) {
 			docFail = true
 		}
 	}
-	what := curV.what()
+	what := stateNote + curV.what()
+	if len(cur.Before) > 0 {
+		what += fmt.Sprintf(" ; served before in the same process: %d request(s), first %s %q accept %q", len(cur.Before), cur.Before[0].Req.Method, cur.Before[0].Req.Path, cur.Before[0].Req.Accept)
+	}
 	if docFail {
 		h.run.Oblige(obDoc, "oracle", 0, false, what)
 	}
@@ -239,7 +278,7 @@ func (h *harness) report(c Case, v *verdict) {
 	if curV.spec != "" {
 		h.run.Oblige(obSpec, "correspondence", 0, false, what)
 	}
-	replay := map[string]any{"world": cur.World, "req": cur.Req, "implementation": curV.realObs, "model": curV.modelObs,
+	replay := map[string]any{"world": cur.World, "req": cur.Req, "before": cur.Before, "implementation": curV.realObs, "model": curV.modelObs,
 		"ref_status_go": curV.goRef, "ref_status_lean": curV.leanRef, "raw_body": string(curV.real.Body)}
 	h.run.Violate(kind, what, classify(&cur, curV), kind == "correspondence", replay)
 }
@@ -251,6 +290,22 @@ func shrinkCandidates(c Case) []Case {
 		b, _ := json.Marshal(c)
 		json.Unmarshal(b, &d)
 		return d
+	}
+	// history: drop halves, then single steps
+	if n := len(c.Before); n > 0 {
+		if n > 3 {
+			d := clone()
+			d.Before = d.Before[n/2:]
+			out = append(out, d)
+			d = clone()
+			d.Before = d.Before[:n/2]
+			out = append(out, d)
+		}
+		for i := 0; i < n; i++ {
+			d := clone()
+			d.Before = append(d.Before[:i], d.Before[i+1:]...)
+			out = append(out, d)
+		}
 	}
 	comps := c.Req.components()
 	for i := range c.World.Types {
@@ -491,8 +546,13 @@ func gridRequests(r *hx.Rand, w *World) (routes []ReqSpec, nego []ReqSpec) {
 }
 
 func main() {
+	if len(os.Args) > 1 && os.Args[1] == "c19-child" {
+		childMain()
+		return
+	}
 	run := hx.Init("C19")
 	h := &harness{run: run, reported: map[string]int{}}
+	h.sampleRand = run.Rand.Fork()
 	if run.ModelPath != "" {
 		m, err := hx.StartModel(run.ModelPath)
 		if err != nil {
@@ -579,6 +639,8 @@ func main() {
 			}
 			run.Count("handlers(get,patch,create,delete):" + hs)
 		}
+		h.worlds = append(h.worlds, worldEntry{w: w, schema: schema, sexp: w.sexp().String()})
+		widx := len(h.worlds) - 1
 		routes, nego := gridRequests(r, &w)
 		h.runBatch(w, schema, routes, "route-grid")
 		h.runBatch(w, schema, nego, "accept-query-grid")
@@ -600,9 +662,14 @@ func main() {
 			}
 			h.runBatch(w, schema, inj, "injected-error-lists")
 		}
+		for f := 0; f < run.Scale(6, 10); f++ {
+			h.families++
+			h.runHistory(h.genFamily(r, widx, h.families), "confusable-history")
+		}
 		if wi < 2 {
 			run.Sample(Case{World: w, Req: reqs[0]})
 		}
 	}
+	h.reserve()
 	run.Finish(h.model)
 }
